@@ -10,6 +10,7 @@ import itertools
 
 import deal
 
+CROSSHAIR = ['bounded.xh.round_sidecar']
 CONTRACTS = ['klepto.rounding.simple_round / deep_round / shallow_round (+ their factories)',
              'klepto.inf_cache/lru_cache/safe.lfu_cache(tol=, deep=).key and the call path', 'klepto.keygen(tol=, deep=)']
 RULE = ('one evaluation = one contract clause on one (rounder, tol, argument structure) case or one (decorator, tol, deep, pair of calls) '
